@@ -36,6 +36,7 @@ var (
 	verifDir = envOr("VERIF_DIR", "/verif")
 	repoDir  = envOr("VERIF_REPO", "/repo")
 	goBin    = envOr("VERIF_GO", "go1.26.8")
+	outDir   = envOr("VERIF_OUT", envOr("VERIF_DIR", "/verif")) // evidence/ and replays/ go here
 )
 
 func envOr(k, d string) string {
@@ -677,7 +678,7 @@ func cmdCheck(args []string) int {
 			continue
 		}
 		ch := sha256.Sum256([]byte(rp.Violation.Class))
-		path := filepath.Join(verifDir, "replays", fmt.Sprintf("%s-%d-%x.json", prop, f.seed, ch[:3]))
+		path := filepath.Join(outDir, "replays", fmt.Sprintf("%s-%d-%x.json", prop, f.seed, ch[:3]))
 		os.MkdirAll(filepath.Dir(path), 0o755)
 		jb, _ := json.MarshalIndent(rp, "", " ")
 		os.WriteFile(path, jb, 0o644)
@@ -768,9 +769,9 @@ func writeEvidence(m *meta.Check, prop, tier string, seed uint64, a *agg, nviol 
 			"skipped_runs":        a.skipped,
 		},
 	}
-	os.MkdirAll(filepath.Join(verifDir, "evidence"), 0o755)
+	os.MkdirAll(filepath.Join(outDir, "evidence"), 0o755)
 	jb, _ := json.MarshalIndent(ev, "", " ")
-	os.WriteFile(filepath.Join(verifDir, "evidence", prop+".json"), jb, 0o644)
+	os.WriteFile(filepath.Join(outDir, "evidence", prop+".json"), jb, 0o644)
 	return nd
 }
 
